@@ -4,6 +4,7 @@ import (
 	"errors"
 	"fmt"
 	"math/rand"
+	"reflect"
 	"strconv"
 	"strings"
 
@@ -15,7 +16,7 @@ import (
 // MV is a model value of the store-passing reference evaluator (the sub-language
 // of C07/C20: integers, strings, booleans, null, arrays).
 type MV struct {
-	K string `json:"k"` // null int str bool arr
+	K string `json:"k"` // null int str bool arr fn (S = rec | rec2)
 	I int64  `json:"i,omitempty"`
 	S string `json:"s,omitempty"`
 	B bool   `json:"b,omitempty"`
@@ -42,6 +43,8 @@ func (v MV) String() string {
 			p = append(p, e.String())
 		}
 		return "[" + strings.Join(p, ", ") + "]"
+	case "fn":
+		return "function"
 	}
 	return "?"
 }
@@ -84,6 +87,8 @@ func mvMatches(m MV, got interface{}) bool {
 		return got == m.S
 	case "bool":
 		return got == m.B
+	case "fn":
+		return got != nil && reflect.TypeOf(got).Kind() == reflect.Func
 	case "arr":
 		a, ok := got.([]interface{})
 		if !ok || len(a) != len(m.A) {
@@ -121,6 +126,10 @@ func mvGo(m MV) interface{} {
 var errModel = errors.New("evaluation error")
 var errUnspec = errors.New("outside the reference sub-language")
 
+// errNotFn: the callee is not a function. An error; whether the arguments were evaluated before it was
+// noticed is not compared.
+var errNotFn = errors.New("callee is not a function")
+
 // refEval evaluates a reference tree over a store. log receives the arguments of rec(...) calls.
 type refEval struct {
 	Store map[string]MV // the data map including $-locals
@@ -153,6 +162,9 @@ func (e *refEval) eval(n *ref.Node) (MV, error) {
 	case "id":
 		if v, ok := e.Store[n.S]; ok {
 			return v, nil
+		}
+		if n.S == "rec" || n.S == "rec2" {
+			return MV{K: "fn", S: n.S}, nil
 		}
 		return mvNull, nil
 	case "paren":
@@ -191,10 +203,20 @@ func (e *refEval) eval(n *ref.Node) (MV, error) {
 		if n.Kids[0].K == "id" && n.Kids[0].S == "nofn" && len(n.Kids) == 1 && !n.Spread {
 			return mvNull, errModel // calling a name that is not defined: an error (C03), nothing else happens
 		}
-		if n.Kids[0].K != "id" || n.Kids[0].S != "rec" || len(n.Kids) < 2 || n.Spread {
+		if n.Kids[0].K != "id" || len(n.Kids) < 2 || n.Spread {
 			return mvNull, errUnspec
 		}
-		// rec(a, b, ...): arguments left to right, one log entry per call, value = last argument
+		// the callee stands left of its arguments: it is read first (an assignment to the same local inside
+		// the argument list is a later write)
+		callee, _ := e.eval(n.Kids[0])
+		if callee.K != "fn" {
+			if strings.HasPrefix(n.Kids[0].S, "$") {
+				return mvNull, errNotFn
+			}
+			return mvNull, errUnspec
+		}
+		// rec(a, b, ...): arguments left to right, one log entry per call, value = last argument;
+		// rec2(a, b, ...): the same, logged with a leading "rec2", value = first argument
 		var args []MV
 		for _, a := range n.Kids[1:] {
 			v, err := e.eval(a)
@@ -202,6 +224,10 @@ func (e *refEval) eval(n *ref.Node) (MV, error) {
 				return mvNull, err
 			}
 			args = append(args, v)
+		}
+		if callee.S == "rec2" {
+			e.Log = append(e.Log, MV{K: "arr", A: append([]MV{{K: "str", S: "rec2"}}, args...)})
+			return args[0], nil
 		}
 		if len(args) == 1 {
 			e.Log = append(e.Log, args[0])
@@ -265,10 +291,11 @@ type subGen struct {
 	IntNames  []string // non-local integer (or missing) names
 	AnyNames  []string // non-local names of any kind
 	ThisKeys  []string
+	FnLocals  []string // hold rec or rec2 (callee position)
 }
 
 func defaultSubGen(r *rand.Rand) *subGen {
-	return &subGen{r: r, IntLocals: []string{"$i", "$j", "$k"}, AnyLocals: []string{"$p", "$q"}, IntNames: []string{"x", "y", "zz"}, AnyNames: []string{"l", "s"}, ThisKeys: []string{"x", "y", "$i", "zz"}}
+	return &subGen{r: r, IntLocals: []string{"$i", "$j", "$k"}, AnyLocals: []string{"$p", "$q"}, IntNames: []string{"x", "y", "zz"}, AnyNames: []string{"l", "s"}, ThisKeys: []string{"x", "y", "$i", "zz"}, FnLocals: []string{"$f", "$g"}}
 }
 
 func (g *subGen) pick(xs []string) string { return xs[g.r.Intn(len(xs))] }
@@ -288,6 +315,19 @@ func (g *subGen) intExpr(d int) *ref.Node {
 		default:
 			return ref.Num(strconv.Itoa(g.r.Intn(100)))
 		}
+	}
+	if len(g.FnLocals) > 0 && g.r.Intn(9) == 0 {
+		// a call through a local, whose arguments may re-bind that very local
+		f := g.pick(g.FnLocals)
+		arg := g.intExpr(d - 1)
+		if g.r.Intn(2) == 0 {
+			arg = ref.Paren(ref.Bin(",", g.fnAssign(f), arg))
+		}
+		call := ref.Call(ref.ID(f), false, arg, g.intExpr(d-1))
+		if g.r.Intn(2) == 0 {
+			return ref.Bin(",", g.fnAssign(g.pick(g.FnLocals)), call)
+		}
+		return call
 	}
 	switch g.r.Intn(9) {
 	case 0, 1:
@@ -314,6 +354,17 @@ func (g *subGen) intExpr(d int) *ref.Node {
 			return ref.Bin("=", ref.ID(g.pick(g.IntLocals)), ref.Bin("+", g.intExpr(0), ref.Call(ref.ID("nofn"), false)))
 		}
 		return ref.Bin("+", ref.Bin("=", ref.ID(g.pick(g.IntLocals)), g.intExpr(d-1)), ref.ID(g.pick(g.IntLocals)))
+	}
+}
+
+func (g *subGen) fnAssign(target string) *ref.Node {
+	switch g.r.Intn(4) {
+	case 0:
+		return ref.Bin("=", ref.ID(target), ref.ID(g.pick(g.FnLocals)))
+	case 1:
+		return ref.Bin("=", ref.ID(target), ref.ID("rec2"))
+	default:
+		return ref.Bin("=", ref.ID(target), ref.ID([]string{"rec", "rec2"}[g.r.Intn(2)]))
 	}
 }
 
